@@ -1,6 +1,7 @@
 //! Verification harness for SwiftMTMessage: replays TLC-generated behaviours against the
 //! library built from /repo's working tree and records traces for TLC to validate.
 
+mod c05;
 mod c06;
 mod c10;
 mod c11;
@@ -29,6 +30,7 @@ fn main() {
         "dispatch" => c12::run(rest),
         "envelope" => c10::run(rest),
         "amounts" => c06::run(rest),
+        "fields" => c05::run(rest),
         "datetime" => c11::run(rest),
         "validate" => c13::run(rest),
         "parse1" => {
